@@ -6,7 +6,8 @@
 (* A supplied document is [mid, roid, kind]                                *)
 (*   mid  : numeric message ID (distinct inside one collection)            *)
 (*   roid : running-order ID it is addressed to                            *)
-(*   kind : "roCreate" | "roDelete" | "ok" | "warn" | "fail"               *)
+(*   kind : "roCreate" | "roDelete" | "ok" | "warn" | "warn2" | "fail" |   *)
+(*          "roReplace"                                                    *)
 (*          ok   - a message that merges                                   *)
 (*          warn - a message that merges with a mosromgr warning           *)
 (*          fail - a message whose merge raises MosMergeError              *)
